@@ -326,7 +326,7 @@ def run(ctx):
     ctx.coverage.update({"cubes": n_cubes, "re_encodings": n_var, "real_calls": S.calls, "calls_compared_in_coq": len(S.lits),
                          "distribution": dict(sorted(S.dist.items()))})
     if thorough:
-        ctx.coverage["exhaustive"] = "every (dimension, v in 0..extent) re-encoding of every generated cube, one dimension at a time"
+        ctx.coverage["reencoding_coverage"] = "every (dimension, v in 0..extent) re-encoding of every generated cube, one dimension at a time"
     ctx.evaluations = len(S.lits) + S.oracle_only
     shard = 2500 if thorough else 400
     S.spread(shard)
